@@ -14,3 +14,10 @@ Definition out_eqb (a b : outcome (list N)) : bool :=
 Definition check_case (c : nat * list nat * bool * list N * list nat * list (outcome (list N))) : bool :=
   let '(size, plan, eofwd, data, ns, observed) := c in
   list_eqb out_eqb (run_script (rb_new size) {| rest := data; plan := plan; eof_with_data := eofwd |} ns) observed.
+
+(* a long-lived buffer: Reset(size, reader) / ReadN(n) scripts; observed: len(buf) after each Reset, the result of each ReadN *)
+Definition robs_eqb (a b : robs) : bool :=
+  match a, b with RLen x, RLen y => Nat.eqb x y | ROut x, ROut y => out_eqb x y | RPanic, RPanic => true | _, _ => false end.
+Definition check_reuse (c : list rop * list robs) : bool :=
+  let '(ops, observed) := c in
+  list_eqb robs_eqb (run_ops (S (length ops)) rb_zero {| rest := []; plan := []; eof_with_data := false |} ops) observed.
